@@ -1,7 +1,9 @@
 (* Props/C05.v — ||, &&, ?: are lazy and absorb failures by fixed rules; one truthiness. *)
 From Coq Require Import ZArith List Bool.
 From Rscel Require Import Base.Prims Model.Value Model.Ops Model.Funcs Model.Interp.
-From Rscel Require Import Proofs.Blocks Proofs.BlocksAnd Proofs.Truthy.
+From Rscel Require Import Model.Lexer Model.Ast Model.Parser Model.Compile Proofs.Blocks Proofs.BlocksAnd Proofs.Chains Proofs.Truthy.
+From Coq Require Strings.String.
+Import Coq.Strings.String.StringSyntax.
 Import ListNotations.
 Import Coq.Strings.String.StringSyntax.
 Open Scope Z_scope.
@@ -137,3 +139,40 @@ Theorem C05_bool_truthy_refuted : exists now v,
   is_err v = false /\ construct_type now #"bool" [v] <> ROk (VBool (is_truthy v)).
 Proof. exact bool_truthy_refuted. Qed.
 Print Assumptions C05_bool_truthy_refuted.
+
+(** * Chains  a || b || c ...  and  a && b && c ...  as emitted: one end label shared by every link
+
+    [chain_run] is the left fold with early exit: the accumulated value is tested; when it decides
+    (true for ||; false or a failure for &&) the chain ends with it and nothing more runs, otherwise
+    the next operand runs and the operator folds its value in. *)
+Theorem C05_or_chain_evaluates : forall rs E d c1 cs lg sva lg1 va lg2 res lg3,
+  pushes rs E d c1 lg sva lg1 -> resolves rs E d sva lg1 va lg2 -> cs <> [] ->
+  chain_run rs E d true or_ va lg2 cs res lg3 ->
+  forall st, exists f, loop rs f E d (or_chain_code c1 cs) O st lg = (ROk (SVal res :: st), lg3).
+Proof. exact or_chain_evaluates. Qed.
+Print Assumptions C05_or_chain_evaluates.
+
+Theorem C05_and_chain_evaluates : forall rs E d c1 cs lg sva lg1 va lg2 res lg3,
+  pushes rs E d c1 lg sva lg1 -> resolves rs E d sva lg1 va lg2 -> cs <> [] ->
+  chain_run rs E d false and_ va lg2 cs res lg3 ->
+  forall st, exists f, loop rs f E d (and_chain_code c1 cs) O st lg = (ROk (SVal res :: st), lg3).
+Proof. exact and_chain_evaluates. Qed.
+Print Assumptions C05_and_chain_evaluates.
+
+(** nothing after the deciding operand runs: the rest of the chain is ANY code *)
+Theorem C05_chain_stops_early : forall rs E d w op opf,
+  (forall st, step rs E d op st = bin rs E d opf st) -> (forall a b, plainv (opf a b)) ->
+  forall c1 c r lg sva lg1 va lg2,
+  pushes rs E d c1 lg sva lg1 -> resolves rs E d sva lg1 va lg2 -> decides w (tested va) = true ->
+  forall st, exists f, loop rs f E d (chain_code w op c1 (c :: r)) O st lg = (ROk (SVal (tested va) :: st), lg2).
+Proof. exact chain_stops_early. Qed.
+Print Assumptions C05_chain_stops_early.
+
+(** the chain shape is the compiler's: a mixed chain compiles to exactly these blocks *)
+Example C05_chain_shape :
+  match compile_source 40 #"a || b || c && d && e" with
+  | COk p _ => Some (pr_code p)
+  | _ => None
+  end = Some (or_chain_code [IPush (VIdent #"a")] [[IPush (VIdent #"b")];
+               and_chain_code [IPush (VIdent #"c")] [[IPush (VIdent #"d")]; [IPush (VIdent #"e")]]]).
+Proof. vm_compute. reflexivity. Qed.
